@@ -26,6 +26,7 @@ KINDS = {
     "Entropy": "pairtag",
     "Float": "number",
 }
+ALLOWED_METHODS = {"__init__", "star", "__add__", "__mul__", "from_string", "metric", "__repr__", "H", "chart", "__eq__"}
 ORDER = ["Boolean", "Real", "Float", "MaxTimes", "MaxPlus", "Expectation", "Entropy", "Log"]
 
 
@@ -260,6 +261,11 @@ def translate(src_text):
         tr = Tr(cls, kind)
         defs = {}
         methods = {m.name: m for m in node.body if isinstance(m, ast.FunctionDef)}
+        # any further operator method (in-place or reflected arithmetic, hashing, ordering) would change
+        # what `a + b`, `a += b`, `a * b` mean for the library: refuse instead of ignoring it
+        unknown = [m for m in methods if m not in ALLOWED_METHODS]
+        if unknown:
+            raise Refuse(f"{cls}: methods outside the modelled vocabulary: {unknown}")
         # constants
         for cn in ("zero", "one"):
             v = consts.get((cls, cn))
